@@ -18,12 +18,21 @@
   AT-T3  a stdlib `Future` method is one atomic step (AF1).
 -/
 import MoreExec.Base.Sys
+import MoreExec.Gen.K3
 
 namespace MoreExec.Timeout
 
 abbrev Tid := Nat
 abbrev Fid := Nat
 abbrev Time := Nat
+
+/-- Where the timeout thread is with respect to its wake-up event: nothing computed yet in this iteration,
+wait time computed (relative time-out, absolute wake-up time), or parked in `Event.wait`. -/
+inductive WSt
+  | none
+  | computed (wait : Option Nat) (wake : Option Nat)
+  | parked (wake : Option Nat)
+deriving DecidableEq, Repr, Hashable
 
 structure Job where
   fut : Fid
@@ -54,7 +63,7 @@ inductive Ev
   | setE | clearE | waitE (timeout : Option Time) (flag : Bool) | parkE (timeout : Option Time) | wokeE (flag : Bool)
   | idle (t : Time) | tick (t : Time)
   | callCancel (f : Fid) | retCancel (f : Fid) (r : Bool)
-  | callShutdown | retShutdown | dshutdown | dshutdownRet | join | parkJoin | joined
+  | callShutdown (wait : Bool) | retShutdown | dshutdown | dshutdownRet | join | parkJoin | joined
   | wstart | texit
 deriving DecidableEq, Repr, Hashable
 
@@ -66,7 +75,8 @@ inductive Op
   | oDsubmit (T : Time)
   | oAddcbIn (k : Fid) | oAddcbOut (k : Fid)
   | tAddOnDone (k : Fid)           -- tau: future.add_done_callback(_on_future_done)
-  | tAppend (k : Fid) (T : Time)   -- tau: deadline := now + T; append under _jobs_lock
+  | tClock (k : Fid) (T : Time)    -- tau: deadline := monotonic() + T
+  | tAppend (k : Fid) (dl : Time)  -- tau: append Job(f, d, deadline) under _jobs_lock
   | oSet
   | tRelGate
   | oRetSubmit (k : Fid)
@@ -81,10 +91,10 @@ inductive Op
   -- delegate worker
   | oDcomplete (k : Fid) | oDcompleted (k : Fid)
   -- timeout worker loop
-  | tFlags | tPartition | tCancelNext (overdue : List Job) (pending : List Job)
-  | oWait (d : Option Time) | oParkOrTick (d : Option Time) | oWoke | oClear | oExit
+  | tFlags | tPartition | tCancelNext
+  | oWait | oParkOrTick | oWoke | oClear | oExit
   -- shutdown
-  | tFlip | oDshutdown | oDshutdownRet | oJoin | oJoined | oRetShutdown
+  | tFlip (wait : Bool) | oDshutdown | oDshutdownRet | oJoin | oJoined | oRetShutdown
 deriving DecidableEq, Repr, Hashable
 
 structure St where
@@ -96,11 +106,13 @@ structure St where
   futs : List Fut := []            -- index = submission number
   progs : List (Tid × List Op) := []
   worker : Option Tid := none
-  wparked : Option (Option Time) := none   -- worker parked in wait: some (wake-up time)
+  wst : WSt := .none               -- worker-local: wait computed / parked (with absolute wake-up time)
+  wOverdue : List Job := []        -- worker-local: overdue jobs still to be cancelled in this iteration
   wexited : Bool := false
   joiner : Option Tid := none      -- thread parked in join
   -- ghosts (never read by enabling conditions; used by theorems)
-  attempts : List (Fid × Time) := []       -- cancel() attempts made by the worker: (future, time)
+  attempts : List (Fid × Time × Time) := []  -- cancel() attempts made by the worker: (future, its deadline, time of attempt)
+  deadlines : List (Fid × Time) := []      -- every job ever appended: (future, deadline)
   jumps : List (Time × Time) := []         -- idle jumps (from, to)
 deriving DecidableEq, Repr, Hashable
 
@@ -129,29 +141,29 @@ def submitProg (T : Time) : List Op := [.enterGate, .oDsubmit T]
 /-- The chain run by whoever triggers the delegate's done callbacks. -/
 def resolvedChain (k : Fid) : List Op := [.tUnlink k, .tResolve k]
 
-def overdue (s : St) : List Job := s.jobs.filter (fun j => !(getFut s j.fut).done && decide (j.deadline < s.now))
-def pendingJobs (s : St) : List Job := s.jobs.filter (fun j => !(getFut s j.fut).done && !decide (j.deadline < s.now))
+/-- What the regenerated kernel sees of a job: the future's `done()` at this instant and the deadline. -/
+def toG (s : St) (j : Job) : Gen.GJob := ⟨⟨j.fut, (getFut s j.fut).done⟩, j.deadline⟩
+def ofG (g : Gen.GJob) : Job := ⟨g.future.id, g.deadline⟩
 
-def minDeadline : List Job → Option Time
-  | [] => none
-  | j :: js => match minDeadline js with
-    | none => some j.deadline
-    | some m => some (min j.deadline m)
+/-- `_partition_jobs`, through the kernel regenerated from timeout.py (K3). -/
+def overdue (s : St) : List Job := ((Gen.K3.partitionJobs (s.jobs.map (toG s)) s.now).2).map ofG
+def pendingJobs (s : St) : List Job := ((Gen.K3.partitionJobs (s.jobs.map (toG s)) s.now).1).map ofG
 
-/-- `max(earliest - now, 0)` (natural subtraction). -/
+/-- The wait-time expression of `_job_loop_iter`, through K3: `max(earliest - now, 0)`, `None` when empty. -/
 def waitTime (now : Time) (pending : List Job) : Option Time :=
-  (minDeadline pending).map (fun e => e - now)
+  Gen.K3.waitTime (pending.map (fun j => ⟨⟨j.fut, false⟩, j.deadline⟩)) now
 
 /-- The parked worker's time-out has expired. -/
 def wakeDue (s : St) : Bool :=
-  match s.wparked with
-  | some (some w) => decide (w ≤ s.now)
+  match s.wst with
+  | .parked (some w) => decide (w ≤ s.now)
   | _ => false
 
 /-- A jump to `tm` does not pass the parked worker's wake-up time. -/
 def jumpOk (s : St) (tm : Time) : Bool :=
-  match s.wparked with
-  | some (some w) => decide (tm ≤ w)
+  match s.wst with
+  | .parked (some w) => decide (tm ≤ w) && !s.flag
+  | .parked none => !s.flag          -- a parked worker whose event is set is runnable: no idle jump
   | _ => true
 
 /-- Start of an activity by a thread whose program is empty. -/
@@ -160,7 +172,7 @@ def startOp (s : St) (t : Tid) (e : Ev) : Option St :=
   | .callSubmit T => some (setProg s t (submitProg T))
   | .callCancel k =>
       if k < s.futs.length then some (setProg s t [.tCancelCheck k true]) else none
-  | .callShutdown => some (setProg s t [.tFlip])
+  | .callShutdown w => some (setProg s t [.tFlip w])
   | .drun k =>
       if (getFut s k).dstate = .pending ∧ k < s.futs.length then
         some (setProg (setFut s k { getFut s k with dstate := .running }) t [.oDcomplete k])
@@ -181,7 +193,7 @@ def execOp (s : St) (t : Tid) (op : Op) (rest : List Op) (l : Lbl) : Option St :
   | .oDsubmit T, .ev (.dsubmit d) =>
       if d = s.futs.length then
         some (setProg { s with futs := s.futs ++ [{ created := true, linked := true }] } t
-          ([.oAddcbIn d, .oAddcbOut d, .tAddOnDone d, .tAppend d T, .oSet, .tRelGate, .oRetSubmit d] ++ rest))
+          ([.oAddcbIn d, .oAddcbOut d, .tAddOnDone d, .tClock d T, .tRelGate, .oRetSubmit d] ++ rest))
       else none
   | .oDsubmit _, .ev .dsubmitRefused => some (setProg s t (.tRelGate :: .oRaiseSubmit :: rest))
   | .oAddcbIn k, .ev (.daddcbIn d dn) =>
@@ -191,13 +203,23 @@ def execOp (s : St) (t : Tid) (op : Op) (rest : List Op) (l : Lbl) : Option St :
         if isDone then some (setProg s t (resolvedChain k ++ rest))
         else some (setProg (setFut s k { f with dCb := true }) t rest)
       else none
+  | .oAddcbIn k, .ev (.drun d) =>
+      -- an inline delegate (SyncExecutor-like) runs the callable inside submit()
+      let f := getFut s k
+      if d = k ∧ f.dstate = .pending then
+        some (setProg (setFut s k { f with dstate := .running }) t (.oDcomplete k :: .oAddcbIn k :: rest))
+      else none
   | .oAddcbOut k, .ev (.daddcbOut d) => if d = k then some (setProg s t rest) else none
   | .tAddOnDone k, .tau =>
       let f := getFut s k
       if f.done then some (setProg s t (.oSet :: rest))
       else some (setProg (setFut s k { f with hasCb := true }) t rest)
-  | .tAppend k T, .tau =>
-      some (setProg { s with jobs := s.jobs ++ [{ fut := k, deadline := s.now + T }] } t rest)
+  | .tClock k T, .tau => some (setProg s t (.tAppend k (s.now + T) :: rest))
+  | .tAppend k dl, .tau =>
+      -- the append under `_jobs_lock`; the very next thing this thread does is `_jobs_write.set()`
+      -- (straight-line code: one append per submission; `deadlines` is the ghost record of all appends)
+      if (s.deadlines.map (·.1)).contains k then none else
+      some (setProg { s with jobs := s.jobs ++ [{ fut := k, deadline := dl }], deadlines := s.deadlines ++ [(k, dl)] } t (.oSet :: rest))
   | .oSet, .ev .setE => some (setProg { s with flag := true } t rest)
   | .tRelGate, .tau => if s.gate = some t then some (setProg { s with gate := none } t rest) else none
   | .oRetSubmit k, .ev (.retSubmit f) => if f = k then some (setProg s t rest) else none
@@ -241,34 +263,56 @@ def execOp (s : St) (t : Tid) (op : Op) (rest : List Op) (l : Lbl) : Option St :
   | .oDcompleted k, .ev (.dcompleted d) => if d = k then some (setProg s t rest) else none
   -- worker loop
   | .tFlags, .tau =>
+      if s.worker ≠ some t then none else
       if s.shut then some (setProg s t [.oExit]) else some (setProg s t [.tPartition])
   | .tPartition, .tau =>
-      some (setProg { s with jobs := pendingJobs s } t [.tCancelNext (overdue s) (pendingJobs s)])
-  | .tCancelNext [] pending, .tau => some (setProg s t [.oWait (waitTime s.now pending)])
-  | .tCancelNext (j :: js) pending, .tau =>
-      some (setProg { s with attempts := s.attempts ++ [(j.fut, s.now)] } t
-        [.tCancelCheck j.fut false, .tCancelNext js pending])
-  | .oWait d, .ev (.waitE d' fl) =>
-      if d = d' ∧ fl = s.flag then
-        if s.flag then some (setProg s t [.oClear]) else some (setProg s t [.oParkOrTick d])
-      else none
-  | .oParkOrTick d, .ev (.tick tm) =>
-      if d = some 0 ∧ tm = s.now + 1 then some (setProg { s with now := tm } t [.oClear]) else none
-  | .oParkOrTick d, .ev (.parkE d') =>
-      if d = d' ∧ d ≠ some 0 then
-        some (setProg { s with wparked := some (d.map (fun x => s.now + x)) } t [.oWoke])
-      else none
+      if s.worker ≠ some t then none else
+      some (setProg { s with jobs := pendingJobs s, wOverdue := overdue s } t [.tCancelNext])
+  | .tCancelNext, .tau =>
+      if s.worker ≠ some t then none else
+      match s.wOverdue with
+      | [] =>
+        -- `pending` is the very list object that was stored into `_jobs` (aliasing): jobs appended since the
+        -- partition are seen by the wait-time computation, which reads the list without the lock
+        some (setProg { s with wst := .computed (waitTime s.now s.jobs) ((waitTime s.now s.jobs).map (fun x => s.now + x)) } t [.oWait])
+      | j :: js =>
+        some (setProg { s with wOverdue := js, attempts := s.attempts ++ [(j.fut, j.deadline, s.now)] } t
+          [.tCancelCheck j.fut false, .tCancelNext])
+  | .oWait, .ev (.waitE d' fl) =>
+      if s.worker ≠ some t then none else
+      match s.wst with
+      | .computed d _ =>
+        if d = d' ∧ fl = s.flag then
+          if s.flag then some (setProg s t [.oClear]) else some (setProg s t [.oParkOrTick])
+        else none
+      | _ => none
+  | .oParkOrTick, .ev (.tick tm) =>
+      if s.worker ≠ some t then none else
+      match s.wst with
+      | .computed d _ =>
+        if d = some 0 ∧ tm = s.now + 1 then some (setProg { s with now := tm, wst := .none } t [.oClear]) else none
+      | _ => none
+  | .oParkOrTick, .ev (.parkE d') =>
+      if s.worker ≠ some t then none else
+      match s.wst with
+      | .computed d wk =>
+        if d = d' ∧ d ≠ some 0 then some (setProg { s with wst := .parked wk } t [.oWoke]) else none
+      | _ => none
   | .oWoke, .ev (.wokeE fl) =>
+      if s.worker ≠ some t then none else
       if fl = s.flag ∧ (s.flag ∨ wakeDue s) then
-        some (setProg { s with wparked := none } t [.oClear])
+        some (setProg { s with wst := .none } t [.oClear])
       else none
-  | .oClear, .ev .clearE => some (setProg { s with flag := false } t [.tFlags])
-  | .oExit, .ev .texit => some (setProg { s with wexited := true } t [])
+  | .oClear, .ev .clearE =>
+      if s.worker ≠ some t then none else some (setProg { s with flag := false, wst := .none } t [.tFlags])
+  | .oExit, .ev .texit =>
+      if s.worker ≠ some t then none else some (setProg { s with wexited := true } t [])
   -- shutdown
-  | .tFlip, .tau =>
+  | .tFlip w, .tau =>
       if s.gate.isSome then none
       else if s.shut then some (setProg s t [.oRetShutdown])
-      else some (setProg { s with shut := true } t [.oSet, .oDshutdown, .oDshutdownRet, .oJoin, .oRetShutdown])
+      else some (setProg { s with shut := true } t
+        ([.oSet, .oDshutdown, .oDshutdownRet] ++ (if w then [.oJoin] else []) ++ [.oRetShutdown]))
   | .oDshutdown, .ev .dshutdown => some (setProg s t rest)
   | .oDshutdownRet, .ev .dshutdownRet => some (setProg s t rest)
   | .oJoin, .ev .join =>
@@ -281,10 +325,11 @@ def execOp (s : St) (t : Tid) (op : Op) (rest : List Op) (l : Lbl) : Option St :
 parked worker / joiner)?  Guard of the idle jump. -/
 def blockedOp (s : St) : Op → Bool
   | .oDcomplete _ => true                 -- the callable is running: environment
+  | .oDshutdownRet => true                -- inside the delegate's shutdown(wait): environment
   | .oWoke => !s.flag                     -- parked in Event.wait (time-out handled by the jump guard)
   | .oJoined => !s.wexited                -- parked in Thread.join
   | .enterGate => s.gate.isSome           -- waiting for the gate
-  | .tFlip => s.gate.isSome
+  | .tFlip _ => s.gate.isSome
   | _ => false
 
 def quiescent (s : St) : Bool :=
@@ -308,8 +353,8 @@ def init : St := {}
 
 /-- Internal actions enabled for thread `t` (validator: candidate expansion). -/
 def isTauOp : Op → Bool
-  | .enterGate | .tAddOnDone _ | .tAppend _ _ | .tRelGate | .tUnlink _ | .tResolve _ | .tCancelCheck _ _
-  | .tCancelled _ | .tFlags | .tPartition | .tCancelNext _ _ | .tFlip => true
+  | .enterGate | .tAddOnDone _ | .tClock _ _ | .tAppend _ _ | .tRelGate | .tUnlink _ | .tResolve _ | .tCancelCheck _ _
+  | .tCancelled _ | .tFlags | .tPartition | .tCancelNext | .tFlip _ => true
   | _ => false
 
 def tauEnabled (s : St) (t : Tid) : Bool :=
